@@ -336,7 +336,7 @@ func (g *generator) ReturnError(ctx *builder.MethodContext, errPath builder.Erro
 
 			if !check.ReturnError {
 				check.ReturnError = true
-				check.Dirty = true
+				g.signatureChanged()
 			}
 		}
 	}
@@ -371,9 +371,18 @@ func (g *generator) requireContext(ctx *builder.MethodContext, need *xtype.Type)
 			Use:  method.ArgUseContext,
 			Type: need,
 		})
-		check.Dirty = true
+		g.signatureChanged()
 	}
 	return true
+}
+
+// signatureChanged marks every method for regeneration: a generated method got an
+// error result or a context parameter, and methods that call it without being part
+// of its origin path (they found it by its signature) must call it accordingly.
+func (g *generator) signatureChanged() {
+	for _, m := range g.getGenMethods() {
+		m.Dirty = true
+	}
 }
 
 func (g *generator) delegateMethod(
